@@ -120,10 +120,42 @@ def rule_R4b_parse_i32(text, mask, ctx):
     return eds
 
 
+def rule_R4c_string_from(text, mask, ctx):
+    eds = []
+    for m in re.finditer(r'(?<![\w:])String::from\(', mask):
+        eds.append((m.start(), m.end(), 'v_string_from(', 'R4c'))
+    return eds
+
+
 def rule_R8_closure_underscore(text, mask, ctx):
     eds = []
     for m in re.finditer(r'\|_\|', mask):
         eds.append((m.start(), m.end(), '|_v|', 'R8'))
+    return eds
+
+
+def rule_R9_any(text, mask, ctx):
+    eds = []
+    for m in re.finditer(r'Rc::new\(RefCell::new\(', mask):
+        inner_open = m.end() - 1
+        inner_close = match_brace(mask, inner_open)
+        outer_close = match_brace(mask, m.start() + len('Rc::new'))
+        eds.append((m.start(), outer_close + 1, 'crate::any_wrap_vars(' + text[inner_open + 1:inner_close] + ')', 'R9'))
+    for m in re.finditer(r'([A-Za-z_]\w*)\.borrow\(\)', mask):
+        eds.append((m.start(), m.end(), 'crate::any_borrow(&%s)' % m.group(1), 'R9'))
+    for m in re.finditer(r'([A-Za-z_]\w*)\.downcast_ref::<HashMap<String, String>>\(\)', mask):
+        eds.append((m.start(), m.end(), 'crate::any_as_vars(&%s)' % m.group(1), 'R9'))
+    for m in re.finditer(r'Rc<RefCell<dyn Any>>', mask):
+        eds.append((m.start(), m.end(), 'AnyBox', 'R9'))
+    return eds
+
+
+def rule_R11_get_mut(text, mask, ctx):
+    """X.get_mut(&K) -> v_get_mut(X, &K)  (monomorphic stub, HashMap<String, StateValue>)"""
+    eds = []
+    for m in re.finditer(r'([A-Za-z_][\w.]*)\.get_mut\(', mask):
+        close = match_brace(mask, m.end() - 1)
+        eds.append((m.start(), close + 1, 'v_get_mut(%s, %s)' % (m.group(1), text[m.end():close].strip()), 'R11'))
     return eds
 
 
@@ -154,7 +186,7 @@ def rule_R17_method_stubs(text, mask, ctx):
 
 
 RULES = [rule_R7_static, rule_R0_paths, rule_R1_format, rule_R16_doc, rule_R2_chars_collect, rule_R3_streq,
-         rule_R4a_to_string, rule_R4b_parse_i32, rule_R8_closure_underscore, rule_R10_halt, rule_R17_method_stubs]
+         rule_R4a_to_string, rule_R4b_parse_i32, rule_R4c_string_from, rule_R8_closure_underscore, rule_R9_any, rule_R11_get_mut, rule_R10_halt, rule_R17_method_stubs]
 
 
 def crate_of(relpath):
@@ -164,6 +196,37 @@ def crate_of(relpath):
 
 
 # --------------------------------------------------------------------------------------------
+
+
+def find_closure(text, mask, bo, bc, k, sel):
+    """k-th closure literal |params| BODY passed as a call argument inside text[bo:bc].
+    Returns (p0, p1, body_start, body_end, params_text)."""
+    cl = [m for m in re.finditer(r'(?<![|\w)\]])\|([^|\n]*)\|(?!\|)', mask[bo:bc])]
+    cl = [m for m in cl if mask[bo + m.start() - 1] in '( ,=\n\t']
+    if k > len(cl):
+        raise LostAnchor('closure #%d not found in %s' % (k, sel))
+    m = cl[k - 1]
+    p0, p1 = bo + m.start(), bo + m.end()
+    depth = 0
+    q = p0 - 1
+    while q > bo:
+        if mask[q] == ')':
+            depth += 1
+        elif mask[q] == '(':
+            if depth == 0:
+                break
+            depth -= 1
+        q -= 1
+    close = match_brace(mask, q)
+    be = close
+    while be > p1 and text[be - 1] in ' \t\n':
+        be -= 1
+    if text[be - 1] == ',':
+        be -= 1
+    bs = p1
+    while text[bs] in ' \t\n':
+        bs += 1
+    return p0, p1, bs, be, m.group(1)
 
 
 class Template:
@@ -221,6 +284,29 @@ def parse_fn_block(lines, i, tname=''):
             elif w[0] == 'attr':
                 spec.setdefault('attrs', []).append(d[len('attr'):].strip())
                 cur = None
+            elif w[0] == 'subst-all':
+                mm = re.match(r'subst-all\s+"(.*?)"\s+=>\s+"(.*)"$', d)
+                spec.setdefault('substs_all', []).append((mm.group(1), mm.group(2)))
+                cur = None
+            elif w[0] == 'subst':
+                mm = re.match(r'subst\s+"(.*?)"\s+=>\s+"(.*)"$', d)
+                if not mm:
+                    raise LostAnchor('bad subst directive: ' + d)
+                spec.setdefault('substs', []).append((mm.group(1).replace('\\n', '\n'), mm.group(2).replace('\\n', '\n')))
+                cur = None
+            elif w[0] == 'rename':
+                spec['rename'] = w[1]
+                cur = None
+            elif w[0] == 'closure-body':
+                spec['closure_of'] = int(w[1])
+                cur = None
+            elif w[0] == 'header':
+                spec['header'] = d[len('header'):].strip()
+                cur = None
+            elif w[0] == 'replace-closure':
+                mm = re.match(r'replace-closure\s+(\d+)\s+=>\s+"(.*)"$', d)
+                spec.setdefault('replace_closures', []).append((int(mm.group(1)), mm.group(2)))
+                cur = None
             elif w[0] == 'norule':
                 spec['rules_off'] += w[1:]
                 cur = None
@@ -276,6 +362,8 @@ class Gen:
         for e in edits:
             if e[0] < last_end and not (e[0] == e[1] == last_end):
                 if e[0] < last_end:
+                    if e[3].startswith('A'):
+                        raise LostAnchor('annotation insertion at offset %d of %s overlaps a rewritten range' % (e[0], rel))
                     continue
             clean.append(e)
             last_end = max(last_end, e[1])
@@ -402,10 +490,31 @@ class Gen:
         if it['body_open'] < 0:
             raise LostAnchor('function has no body: ' + sel)
         fnname = sel.replace('fn ', '')
+        closure_mode = 'closure_of' in spec
+        if closure_mode:
+            # R12 lambda lifting: the k-th closure literal of the host function becomes a function whose
+            # header comes from the template and whose body is the closure body, verbatim
+            k = spec['closure_of']
+            cp0, cp1, cbs, cbe, cparams = find_closure(text, mask, it['body_open'], it['body_close'], k, sel)
+            it = dict(start=cbs, end=cbe, body_open=cbs, body_close=cbe, name_end=cbs, kind='closure')
+            fnname = fnname + '__closure%d' % k
+            hdr_names = re.findall(r'(\w+)\s*:', spec.get('header', '').split('(', 1)[1]) if '(' in spec.get('header', '') else []
+            for nm in [x.strip() for x in cparams.split(',') if x.strip()]:
+                if nm.split(':')[0].strip() not in hdr_names:
+                    raise LostAnchor('closure #%d of %s has parameter %s not named in the lifted header' % (k, sel, nm))
         eds = self.rule_edits(rel, it['start'], it['end'], spec['rules_off'], spec['stubs'])
         bo, bc = it['body_open'], it['body_close']
         props = spec['props']
         ann_id = [0]
+        if spec.get('rename') and not closure_mode:
+            nm = re.compile(r'\bfn\s+(\w+)').search(mask, it['start'], it['name_end'])
+            eds.append((nm.start(1), nm.end(1), spec['rename'], 'R12', None))
+            fnname = spec['rename']
+        for (k, new_t) in spec.get('replace_closures', []):
+            cp0, cp1, cbs, cbe, cparams = find_closure(text, mask, bo, bc, k, sel)
+            eds.append((cp0, cbe, new_t, 'R12', None))
+            eds[:] = [e for e in eds if not (cp0 <= e[0] and e[1] <= cbe and e[4] is None and e[3] != 'R12')]
+            self.report['rules_applied']['R12'] = self.report['rules_applied'].get('R12', 0) + 1
 
         def ann(pos, lines, kind, label):
             body = self.clause_lines(fnname, kind, lines, props)
@@ -417,6 +526,15 @@ class Gen:
         for a in spec.get('attrs', []):
             ls0 = line_start(text, mask.rfind('fn', it['start'], it['name_end']))
             eds.append((ls0, ls0, a + '\n', 'A1', ('ann', fnname, 'attr')))
+        if closure_mode:
+            spec = dict(spec)
+            spec['ret'] = None
+            self.emit(spec['header'], ('ann', fnname, 'header'))
+            body = self.clause_lines(fnname, 'sig', spec['sig'], props)
+            for ln_, tl_ in zip(body, self._last_tls):
+                self.out.append((ln_, ('ann', fnname, 'sig', tl_)))
+            self.emit('{', ('ann', fnname, 'header'))
+            spec['sig'] = []
         # return value name
         if spec['ret']:
             sig_mask = mask[it['name_end']:bo]
@@ -447,13 +565,14 @@ class Gen:
             eds.append((ty_start, ty_start, '(%s: ' % spec['ret'], 'A1', ('ann', fnname, 'ret')))
             eds.append((ty_end, ty_end, ')', 'A1', ('ann', fnname, 'ret')))
         # signature contract
-        ann(bo, spec['sig'], 'sig', 'sig')
+        if not closure_mode:
+            ann(bo, spec['sig'], 'sig', 'sig')
         # always register the implicit safety obligation of the function
         self.ledger.append(dict(fn=fnname, label=fnname + '.safety', kind='implicit', props=props,
                                 text='no out-of-bounds / unwrap-on-None / overflow / reachable panic; termination of loops with decreases',
                                 tmpl_line=spec['tmpl_line']))
         if spec['head']:
-            ann(bo + 1, spec['head'], 'ghost', 'head')
+            ann(bo if closure_mode else bo + 1, spec['head'], 'ghost', 'head')
         # loops
         loops = find_loops(mask, bo, bc)
         for k, lspec in spec['loops'].items():
@@ -465,26 +584,33 @@ class Gen:
                     raise LostAnchor('loop #%d of %s is not a for loop' % (k, sel))
                 eds.append((lp['in_end'], lp['in_end'], ' %s:' % lspec['iter'], 'A2', ('ann', fnname, 'loop%d.iter' % k)))
             ann(lp['body_open'], lspec['text'], 'loop%d' % k, 'loop%d' % k)
+        # declared textual substitutions (R15 and friends): exactly one occurrence required
+        for (old_t, new_t) in spec.get('substs', []):
+            body_text = text[it['start']:it['end']]
+            if body_text.count(old_t) != 1:
+                raise LostAnchor('subst source "%s" occurs %d times in %s' % (old_t, body_text.count(old_t), sel))
+            p0 = it['start'] + body_text.index(old_t)
+            eds.append((p0, p0 + len(old_t), new_t, 'R15', None))
+            self.report['rules_applied']['R15'] = self.report['rules_applied'].get('R15', 0) + 1
+        for (old_t, new_t) in spec.get('substs_all', []):
+            body_text = text[it['start']:it['end']]
+            if body_text.count(old_t) < 1:
+                raise LostAnchor('subst-all source "%s" does not occur in %s' % (old_t, sel))
+            st_ = 0
+            while True:
+                ix = body_text.find(old_t, st_)
+                if ix < 0:
+                    break
+                eds.append((it['start'] + ix, it['start'] + ix + len(old_t), new_t, 'R15', None))
+                st_ = ix + len(old_t)
         # closures (A3): |p| EXPR  ->  |p: T| -> (q: R) ensures ... { EXPR }
         for c in spec.get('closures', []):
-            cl = [m for m in re.finditer(r'(?<![|\w)\]])\|([^|\n]*)\|(?!\|)', mask[bo:bc])]
-            cl = [m for m in cl if mask[bo + m.start() - 1] in '( ,=\n\t']
-            if c['k'] > len(cl):
-                raise LostAnchor('closure #%d not found in %s' % (c['k'], sel))
-            m = cl[c['k'] - 1]
-            p0, p1 = bo + m.start(), bo + m.end()
-            # enclosing call paren
-            depth = 0
-            q = p0 - 1
-            while q > bo:
-                if mask[q] == ')':
-                    depth += 1
-                elif mask[q] == '(':
-                    if depth == 0:
-                        break
-                    depth -= 1
-                q -= 1
-            close = match_brace(mask, q)
+            p0, p1, cbs, cbe, cparams = find_closure(text, mask, bo, bc, c['k'], sel)
+            close = cbe
+            class _M:
+                pass
+            m = _M()
+            m.group = lambda i, cparams=cparams: cparams
             names_old = [x.strip().split(':')[0].strip() for x in m.group(1).split(',') if x.strip()]
             names_new = [x.strip().split(':')[0].strip() for x in c['params'].split(',') if x.strip()]
             if names_old != names_new and not (names_old == ['_'] ):
@@ -514,10 +640,12 @@ class Gen:
                 p = line_end(text, pos)
                 body = self.clause_lines(fnname, 'ghost', a['text'], props)
                 eds.append((p, p, '\n' + '\n'.join(body), 'A4', ('ann', fnname, 'ghost@' + a['lit'], [''] + self._last_tls)))
-        first_out = len(self.out)
+        first_out = len(self.out) - (len(spec.get('header', '').split('\n')) + 1 if closure_mode else 0)
         self.apply_edits(rel, it['start'], it['end'], eds)
+        if closure_mode:
+            self.emit('}', ('ann', fnname, 'header'))
         self.report['functions'].append(dict(
-            file=rel, selector=sel, name=fnname, props=props,
+            file=rel, selector=sel + (' #closure%d' % spec['closure_of'] if closure_mode else ''), name=fnname, props=props,
             src_lines=[line_no(text, it['start']), line_no(text, it['end'])],
             gen_lines=[first_out + 1, len(self.out)],
             sha256=hashlib.sha256(text[it['start']:it['end']].encode()).hexdigest(),
@@ -540,6 +668,14 @@ class Gen:
             if s.startswith('//@ item '):
                 rel, sel = [x.strip() for x in s[len('//@ item '):].split(' :: ', 1)]
                 self.do_item(rel, sel)
+            elif s.startswith('//@ use-macro '):
+                w = s[len('//@ use-macro '):].split()
+                mp = os.path.join(VERIF, w[0])
+                txt = open(mp).read()
+                for kv in w[1:]:
+                    a, b = kv.split('=', 1)
+                    txt = txt.replace('$' + a, b.replace('+', ' '))
+                self.run(txt.split('\n'), os.path.basename(mp) + '[' + w[1] + ']')
             elif s.startswith('//@ include-tmpl '):
                 p = os.path.join(VERIF, s[len('//@ include-tmpl '):].strip())
                 self.run(open(p).read().split('\n'), os.path.basename(p))
